@@ -327,6 +327,33 @@ func encryptsFreshMemory(p *Program, r *Reporter) {
 	if n == 0 {
 		r.Broken("no EncryptFragment call found")
 	}
+	// the per-representation encryption parameters built at load time (key, IV, protection data) are read-only while serving
+	r.Rule("E2-ENCPARAMS-RO", "key, IV and protection data of a representation are never written by request-serving code", 0)
+	reads, writes := 0, 0
+	seen := map[string]bool{}
+	for _, a := range e.accesses {
+		if !strings.HasPrefix(a.field, "app.repEncData.") && !strings.HasPrefix(a.field, "app.initEncData.") && a.field != "global:app.defaultIV" {
+			continue
+		}
+		if !a.write {
+			reads++
+			continue
+		}
+		writes++
+		k := shortFn(a.fn) + "|" + a.field
+		if seen[k] {
+			continue
+		}
+		seen[k] = true
+		r.Violate("E2-ENCPARAMS-RO", shortFn(a.fn), a.kind()+":"+a.field, p.pos(instrPos(a.instr)),
+			"request-serving code writes "+a.field+", which every later request (and the init segment generated at load time) relies on: ciphertext no longer matches the announced key/IV", nil)
+	}
+	if writes == 0 {
+		r.Discharge("E2-ENCPARAMS-RO", "app.repEncData", "serving-phase-writes", "-", fmt.Sprintf("%d serving-phase reads, no writes", reads))
+	}
+	if reads == 0 {
+		r.Broken("no serving-phase access to the encryption parameters found")
+	}
 }
 
 func newDepQueryLocal(p *Program, target func(ssa.Value) bool) *depQuery {
